@@ -179,7 +179,8 @@ pub fn run(args: &Args) {
             break;
         }
         let mut grng = rng.fork();
-        let rules = gen_grammar(&mut grng, &cfg);
+        let gcfg = cfg.vary(&mut grng);
+        let rules = gen_grammar(&mut grng, &gcfg);
         let text = vmon::print::rules_to_string(&rules);
         let Ok((ast, optimized)) = read_grammar(&text) else {
             rep.count("grammars_rejected_by_pest");
